@@ -169,6 +169,9 @@ func forcedTable() []*scen {
 					if p.p == pExit && first == "B" {
 						continue // A's daemon has exited: A left first by construction
 					}
+					if stale == "killed" && first == "B" {
+						continue
+					}
 					s := newScen("stale2", stale, "A", "B")
 					s.Desc = fmt.Sprintf("stale=%s; B parked at %s until %s; %s leaves first", stale, q, p, first)
 					if q != pStart {
